@@ -277,6 +277,10 @@ func verifKeptBudget(n uint64) Option {
 	return o.(Option)
 }
 
+// verifGS: a helper of the user's package through which code blocks reach the globalStore without
+// spelling the field's name (IndirectGlobal grammars).
+func verifGS(x *current) map[string]any { return x.globalStore }
+
 // verifNested: a nested call of the package's own Parse whose error a code block hands on as it is
 // (the dynamic type of that error is the parser's own error list).
 func verifNested() error {
